@@ -86,4 +86,28 @@ TEXTS = {
         "note": "Leaves are recognised by their fixed message prefixes; index digits in name[i] are normalised away; messages originating in std/syn are matched as 'custom'.",
         "technique": "fault-injecting property-based testing against a reference model of the error multiset",
     },
+    "C08": {
+        "level": "Metamorphic generated-input search: for generated element-level receivers and item sequences (clean or faulty), ALL partitions of <=6 items into consecutive attributes (random beyond), under any declared name, with empty/bare attributes and foreign attributes (incl. unparseable bodies) interspersed, must give the identical value or identical ordered errors as the single-attribute rendering; forwarded attributes compared token-for-token with the input attributes selected by forward_attrs on 90 receivers of the magic batch.",
+        "ref": "DESIGN.md section 3 C08",
+        "note": "Only well-formed item sequences are partitioned; names never appear both in attributes(..) and forward_attrs(..).",
+        "technique": "metamorphic property-based testing over generated programs",
+    },
+    "C09": {
+        "level": "For every FromMeta enum of the generated batch (~65 per run, 16x thorough) the (form, name) space over a closed alphabet (effective names, Rust names, names under all six case rules, skipped variants, one-edit neighbours) is enumerated completely, plus generated good and faulty payloads for newtype and struct variants and the absent form; compared with the enum part of the reference model.",
+        "ref": "DESIGN.md section 3 C09",
+        "note": "One listed known finding (skip + word on one variant) is probed by a fixed receiver and otherwise excluded from generation.",
+        "technique": "exhaustive enumeration per generated program against a reference model",
+    },
+    "C16": {
+        "level": "Generated-input search over elements: 92 receivers covering every subset of each trait's magic fields (with wrappers, `with` converters, inner FromField/FromVariant/FromTypeParam receivers, supports) on generated structs / enums / unions with generics, where-clauses, discriminants, every visibility form and faulty body attributes; magic fields compared token-wise with the input parts, body conversion with a list model.",
+        "ref": "DESIGN.md section 3 C16",
+        "note": "Expected values are computed from the abstract element the text was rendered from.",
+        "technique": "property-based testing with construct-then-render inputs and a token-level oracle",
+    },
+    "C17": {
+        "level": "Generated receivers with deliberately close names (flatten chains of depth 3, skip, rename, enums with skipped variants) and unknown names at edit distance 0..3 from valid, skipped, flatten-member and parent names; oracle: suggestion is a valid name at that position, not the rejected one, maximal jaro_winkler > 0.8, absent iff none qualifies, accepted when followed; the same crate built without the feature must give the same leaves without suggestions.",
+        "ref": "DESIGN.md section 3 C17",
+        "note": "strsim is trusted; a tie between equal candidates is not a violation.",
+        "technique": "property-based testing with an optimality oracle + feature on/off differential",
+    },
 }
